@@ -6,6 +6,7 @@ import random
 import spydrnet as sdn
 from spydrnet.callback.callback_listener import CallbackListener
 from spydrnet.ir.outerpin import OuterPin as _OuterPinBase
+from spydrnet.ir.definition import Definition as ir_Definition
 
 from common import lean
 from common.ctx import ROOT, stable_hash
@@ -252,7 +253,7 @@ class Sink:
     def on_event(self, name, a):
         # --- "before it takes effect"
         try:
-            vis = self.visible(name, a)
+            vis = self.visible(name, a) or self.visible_vs_mirror(name, a)
         except Exception as ex:  # noqa: BLE001
             vis = "probe-error:" + type(ex).__name__
         if vis and name == "wire_disconnect_pin":
@@ -298,14 +299,32 @@ class Sink:
             if isinstance(pin, _OuterPinBase) and pin.instance is not None and pin.inner_pin in pin.instance._pins:
                 pin = pin.instance._pins[pin.inner_pin]
             return "pin no longer reports the wire" if pin._wire is not a[0] else None
+        return None
+
+    _MISSING = object()
+
+    def visible_vs_mirror(self, name, a):
+        """reference / top / data changes: the mirror built from the announcements so far is the state before
+        this change; the change is 'already visible' when the netlist shows the announced value although the
+        mirror does not (so an announcement of a value that is already there is not counted)"""
+        sh = self.shadow
         if name == "instance_reference":
-            return "reference already assigned" if (a[0]._reference is a[1] and a[1] is not None and a[0]._reference is not None and False) else None
-        if name == "netlist_top_instance":
-            return None
-        if name == "dictionary_set":
-            return None
-        if name in ("dictionary_delete", "dictionary_pop"):
-            return None
+            before = sh.ref.get(id(a[0]))
+            if before is not a[1] and a[0]._reference is a[1]:
+                return "instance already has the announced reference"
+        elif name == "netlist_top_instance" and not isinstance(a[1], ir_Definition):
+            before = sh.top.get(id(a[0]))
+            if before is not a[1] and a[0]._top_instance is a[1]:
+                return "netlist already has the announced top instance"
+        elif name == "dictionary_set":
+            before = sh.data.get(id(a[0]), {}).get(a[1], Sink._MISSING)
+            now = a[0]._data.get(a[1], Sink._MISSING)
+            if a[1] != ".NS" and (before is Sink._MISSING or before != a[2] or type(before) is not type(a[2])) and now is not Sink._MISSING and now == a[2] and type(now) is type(a[2]):
+                return "element data already holds the announced value"
+        elif name in ("dictionary_delete", "dictionary_pop"):
+            before = sh.data.get(id(a[0]), {}).get(a[1], Sink._MISSING)
+            if before is not Sink._MISSING and a[1] not in a[0]._data:
+                return "element data no longer holds the key"
         return None
 
     def canon(self):
